@@ -134,8 +134,9 @@ class Program:
         except RecursionError:
             self.folded_helpers = []
         for name, path, src, raw, tree in parsed:
-            tree = _Canon().visit(tree)
-            ast.fix_missing_locations(tree)
+            from .canon import canon_module
+
+            tree = canon_module(tree)
             m = Module(name, path, src, hashlib.sha256(raw).hexdigest(), tree, src.splitlines())
             self.modules[name] = m
             self._index(m)
